@@ -8,7 +8,9 @@
 (* Worker:  wait (in epoll_wait) -> woken (w.after_wait) -> read           *)
 (*          (w.after_read: kick consumed, `enabled` sampled) ->            *)
 (*          predispatch (w.before_dispatch) -> dispatch -> wait            *)
-(* Control: idle -> [message] -> state (c.after_state: flag changed) ->     *)
+(* Control: idle -> [message] -> (setkick (c.after_setkick: a starting        *)
+(*          message has installed its descriptor) ->) state (c.after_state: *)
+(*          flag changed) ->                                                *)
 (*          ctl (c.after_ctl: epoll add/del done) -> [drop kick] -> reply  *)
 (*          (d.after_request) -> idle                                      *)
 (* Level-triggered epoll over an eventfd counter: the worker is woken when *)
@@ -19,7 +21,10 @@ EXTENDS Integers, Sequences, FiniteSets, TLC
 CONSTANTS Script,       \* sequence of control messages the frontend sends, in order
           MaxKicks      \* how many kicks the guest may raise
 
-Ops == {"disable", "enable", "stop", "start", "reset", "features"}
+\* "start": SET_VRING_KICK with a fresh descriptor; "restart": SET_VRING_KICK with the very eventfd the ring had before it
+\* was stopped (what QEMU does) -- the guest's kicks then land on the same counter whether or not the ring has it installed
+Ops == {"disable", "enable", "stop", "start", "restart", "reset", "features"}
+SameFd == \E i \in 1..Len(Script) : Script[i] = "restart"
 
 VARIABLES ready, enabled, haskick, reg, counter,    \* ring / epoll / eventfd
           wpc, wEnabled,                             \* worker
@@ -40,7 +45,7 @@ Cmd(c) == sched' = Append(sched, c)
 Active == ready /\ enabled
 
 \* ---- guest -------------------------------------------------------------------------------
-Kick == /\ kicks < MaxKicks /\ haskick
+Kick == /\ kicks < MaxKicks /\ (haskick \/ SameFd)
         /\ kicks' = kicks + 1 /\ counter' = counter + 1 /\ owed' = TRUE
         /\ Cmd("k")
         /\ UNCHANGED <<ready, enabled, haskick, reg, wpc, wEnabled, cpc, cop, next, quiet, p1, p2, died, spins>>
@@ -88,16 +93,24 @@ WDispatch == /\ wpc = "predispatch"
 Send == /\ cpc = "idle" /\ next <= Len(Script)
         /\ LET op == Script[next] IN
            /\ cop' = op /\ next' = next + 1
-           /\ quiet' = IF op \in {"enable", "start"} THEN FALSE ELSE quiet
+           /\ quiet' = IF op \in {"enable", "start", "restart"} THEN FALSE ELSE quiet
            /\ CASE op = "disable" -> enabled' = FALSE /\ UNCHANGED <<ready, haskick>>
                 [] op = "enable" -> enabled' = TRUE /\ UNCHANGED <<ready, haskick>>
                 [] op = "reset" -> enabled' = FALSE /\ UNCHANGED <<ready, haskick>>
                 [] op = "features" -> UNCHANGED <<ready, enabled, haskick>>   \* SET_FEATURES with PROTOCOL_FEATURES: ring states untouched
                 [] op = "stop" -> ready' = FALSE /\ UNCHANGED <<enabled, haskick>>
-                [] op = "start" -> ready' = TRUE /\ haskick' = TRUE /\ UNCHANGED enabled
-           /\ cpc' = IF op = "features" THEN "idle" ELSE "state"     \* no per-ring step: replied at once
+                \* a starting message first installs the descriptor (set_kick), then marks the queue ready (CReady)
+                [] op \in {"start", "restart"} -> haskick' = TRUE /\ UNCHANGED <<ready, enabled>>
+           /\ cpc' = IF op = "features" THEN "idle"                   \* no per-ring step: replied at once
+                     ELSE IF op \in {"start", "restart"} THEN "setkick" ELSE "state"
            /\ Cmd("m:" \o op)
         /\ UNCHANGED <<reg, counter, wpc, wEnabled, kicks, owed, p1, p2, died, spins>>
+
+\* initialize_vring: the queue becomes ready (between c.after_setkick and c.after_state)
+CReady == /\ cpc = "setkick"
+          /\ ready' = TRUE /\ cpc' = "state"
+          /\ Cmd("c")
+          /\ UNCHANGED <<enabled, haskick, reg, counter, wpc, wEnabled, cop, next, kicks, quiet, owed, p1, p2, died, spins>>
 
 \* update_vring_registration: epoll add / delete according to the ring state
 CCtl == /\ cpc = "state"
@@ -108,7 +121,8 @@ CCtl == /\ cpc = "state"
 
 \* GET_VRING_BASE drops the kick descriptor (a kick pending on it is no longer owed a dispatch)
 CDropKick == /\ cpc = "ctl_stop"
-             /\ haskick' = FALSE /\ owed' = FALSE /\ counter' = 0
+             \* (the counter belongs to the descriptor: a fresh one starts at zero, the frontend's own eventfd keeps its count)
+             /\ haskick' = FALSE /\ owed' = FALSE /\ counter' = IF SameFd THEN counter ELSE 0
              /\ cpc' = "ctl"
              /\ Cmd("c")
              /\ UNCHANGED <<ready, enabled, reg, wpc, wEnabled, cop, next, kicks, quiet, p1, p2, died, spins>>
@@ -119,7 +133,7 @@ CReply == /\ cpc = "ctl"
           /\ Cmd("c")
           /\ UNCHANGED <<ready, enabled, haskick, reg, counter, wpc, wEnabled, cop, next, kicks, owed, p1, p2, died, spins>>
 
-Next == Kick \/ Wake \/ WRead \/ WCheck \/ WDispatch \/ Send \/ CCtl \/ CDropKick \/ CReply
+Next == Kick \/ Wake \/ WRead \/ WCheck \/ WDispatch \/ Send \/ CReady \/ CCtl \/ CDropKick \/ CReply
 Spec == Init /\ [][Next]_vars
 
 \* quiescence: script finished, nothing can move any more
